@@ -1,0 +1,60 @@
+//go:build verif
+
+// Contracts for the verification machinery in /verif (comment-only file, never compiled
+// into a normal build): decision logic of the generator (C16). Syntax: /verif/DESIGN.md.
+
+package gengorums
+
+// hasOpt(method, ext): the method's options message carries extension ext
+// (proto.HasExtension is deterministic - assumed at its call sites below).
+//@ specfun hasOpt(Int, Int) Bool
+//@ specfun clientStream(Iface) Bool
+//@ specfun serverStream(Iface) Bool
+
+//@ func gengorums.hasMethodOption
+//@   props C16
+//@   requires method != nil
+//@   loop "for _, callType := range methodOptions"
+//@     invariant forall(k, 0, idx, !hasOpt(method, methodOptions[k]))
+//@   on call "proto.HasExtension"
+//@     after assume res0 == hasOpt(method, dyn(arg1))
+//@   ensures[C16.options] result <==> exists(k, 0, len(methodOptions), hasOpt(method, methodOptions[k]))
+
+//@ func gengorums.hasAllMethodOption
+//@   props C16
+//@   requires method != nil
+//@   loop "for _, callType := range methodOptions"
+//@     invariant forall(k, 0, idx, hasOpt(method, methodOptions[k]))
+//@   on call "proto.HasExtension"
+//@     after assume res0 == hasOpt(method, dyn(arg1))
+//@   ensures[C16.options] result <==> forall(k, 0, len(methodOptions), hasOpt(method, methodOptions[k]))
+
+// The documented rules (doc/method-options.md): call types cannot be combined; async
+// needs quorumcall; client streams need multicast; server streams need correctable;
+// correctable must not be a client stream; every combination the option matrix marks
+// "Yes" is accepted.
+//@ func gengorums.validateOptions
+//@   props C16
+//@   requires method != nil
+//@   on call "method.Desc.IsStreamingClient"
+//@     after assume res0 == clientStream(method.Desc)
+//@   on call "method.Desc.IsStreamingServer"
+//@     after assume res0 == serverStream(method.Desc)
+//@   ensures[C16.illegal] hasOpt(method, gorums.E_Async) && !hasOpt(method, gorums.E_Quorumcall) ==> result != nil
+//@   ensures[C16.illegal] clientStream(method.Desc) && !hasOpt(method, gorums.E_Multicast) ==> result != nil
+//@   ensures[C16.illegal] serverStream(method.Desc) && !hasOpt(method, gorums.E_Correctable) ==> result != nil
+//@   ensures[C16.illegal] hasOpt(method, gorums.E_Correctable) && clientStream(method.Desc) ==> result != nil
+//@   ensures[C16.exclusive] hasOpt(method, gorums.E_Quorumcall) && (hasOpt(method, gorums.E_Correctable) || hasOpt(method, gorums.E_Multicast) || hasOpt(method, gorums.E_Unicast)) ==> result != nil
+//@   ensures[C16.exclusive] hasOpt(method, gorums.E_Correctable) && (hasOpt(method, gorums.E_Multicast) || hasOpt(method, gorums.E_Unicast)) ==> result != nil
+//@   ensures[C16.exclusive] hasOpt(method, gorums.E_Multicast) && hasOpt(method, gorums.E_Unicast) ==> result != nil
+//@   ensures[C16.illegal] hasOpt(method, gorums.E_Correctable) && hasOpt(method, gorums.E_Async) ==> result != nil
+//@   ensures[C16.legal] !clientStream(method.Desc) && !serverStream(method.Desc) && !hasOpt(method, gorums.E_Async) && \
+//@       !hasOpt(method, gorums.E_Correctable) && !hasOpt(method, gorums.E_Multicast) && !hasOpt(method, gorums.E_Unicast) ==> result == nil
+//@   ensures[C16.legal] !clientStream(method.Desc) && !serverStream(method.Desc) && hasOpt(method, gorums.E_Quorumcall) && \
+//@       !hasOpt(method, gorums.E_Correctable) && !hasOpt(method, gorums.E_Multicast) && !hasOpt(method, gorums.E_Unicast) ==> result == nil
+//@   ensures[C16.legal] !clientStream(method.Desc) && hasOpt(method, gorums.E_Correctable) && !hasOpt(method, gorums.E_Async) && \
+//@       !hasOpt(method, gorums.E_Quorumcall) && !hasOpt(method, gorums.E_Multicast) && !hasOpt(method, gorums.E_Unicast) ==> result == nil
+//@   ensures[C16.legal] !serverStream(method.Desc) && hasOpt(method, gorums.E_Multicast) && !hasOpt(method, gorums.E_Async) && \
+//@       !hasOpt(method, gorums.E_Quorumcall) && !hasOpt(method, gorums.E_Correctable) && !hasOpt(method, gorums.E_Unicast) ==> result == nil
+//@   ensures[C16.legal] !clientStream(method.Desc) && !serverStream(method.Desc) && hasOpt(method, gorums.E_Unicast) && !hasOpt(method, gorums.E_Async) && \
+//@       !hasOpt(method, gorums.E_Quorumcall) && !hasOpt(method, gorums.E_Correctable) && !hasOpt(method, gorums.E_Multicast) ==> result == nil
